@@ -1,6 +1,7 @@
 /-
 C08 — Closest-node and distance lookups are exact.
-Property theorems only (helper lemmas live in `Proofs/ClosestLemmas.lean`).
+Property theorems only (helper lemmas live in `Proofs/ClosestLemmas.lean`; that the lazily applied
+pending nodes preserve the table invariant is `applyAt_inv` of `Proofs/KBucketLemmas.lean`).
 -/
 import Discv5Model.Proofs.ClosestLemmas
 import Discv5Model.Proofs.KBucketLemmas
@@ -35,6 +36,7 @@ theorem closest_eq_sorted_scan (c : Cfg V) (now : Nat) (t : Table V) (target : N
         (fun a b => decide ((a ^^^ target) ≤ (b ^^^ target))) := by
   exact closest_eq_sorted_scan_aux c now t target (applyAt_inv c now) h hl ht
 
+omit [DecidableEq V] in
 /-- The predicate variant yields the same sequence with correct match flags. -/
 theorem closestPred_spec (c : Cfg V) (now : Nat) (t : Table V) (target : Nat) (pred : V → Bool) :
     (t.closestPred c now target pred).2.map (·.1) = (t.closest c now target).2 ∧
@@ -58,5 +60,54 @@ theorem nodesByDistances_exact (c : Cfg V) (now : Nat) (t : Table V) (ds : List 
     (∀ n ∈ r.2, ∃ d ∈ ds, 1 ≤ d ∧ d ≤ 256 ∧ bucketIndex t.localKey n.key = some (d - 1)) ∧
     r.2 = want.take maxNodes ∧ (r.2.map (·.key)).Nodup := by
   exact nodesByDistances_aux c now t ds maxNodes (applyAt_inv c now) h hd hm
+
+/-! ### Non-vacuity: the hypotheses are satisfiable by a non-empty table, and the iterator order
+is the expected one on a concrete distance (start at the top bit, zoom in over the set bits,
+zoom out over the clear bits). -/
+
+
+example : (bucketOrder 0b1010).take 6 = [3, 1, 0, 2, 4, 5] := by decide
+
+/-- A connected outgoing node. -/
+def c08Node (key : Nat) : Node Nat :=
+  { key := key, value := 10 * key, st := { conn := true, incoming := false } }
+
+/-- Local id 8 with the nodes 9 (distance 1, bucket 0) and 3 (distance 11, bucket 3). -/
+def c08Table : Table Nat :=
+  ((Table.init 8).setBucket 0 { nodes := [c08Node 9], fcp := some 0 }).setBucket 3
+    { nodes := [c08Node 3], fcp := some 0 }
+
+theorem c08Bucket_binv (c : Cfg Nat) (tick key : Nat) :
+    BInv c tick { nodes := [c08Node key], fcp := some 0 } :=
+  { len := by simp
+    split := ⟨[], [c08Node key], rfl, by simp, by simp [c08Node], by simp, by simp, by simp⟩
+    keysNodup := by simp
+    pendingFresh := by simp
+    incoming := by simp [c08Node]
+    stampsLe := by simp [c08Node] }
+
+theorem c08Table_tinv (c : Cfg Nat) : TInv c c08Table := by
+  unfold c08Table
+  refine TInv.setBucket (TInv.setBucket (init_tinv c 8) (c08Bucket_binv c _ 9) ?_)
+    (c08Bucket_binv c _ 3) ?_
+  · refine ⟨?_, by simp⟩
+    simp only [List.mem_singleton, forall_eq]
+    show bucketIndex 8 9 = some 0
+    decide
+  · refine ⟨?_, by simp⟩
+    simp only [List.mem_singleton, forall_eq]
+    show bucketIndex 8 3 = some 3
+    decide
+
+example (c : Cfg Nat) (now : Nat) :
+    (c08Table.closest c now 2).2.Pairwise (fun a b => (a.key ^^^ 2) < (b.key ^^^ 2)) :=
+  closest_sorted c now c08Table 2 (c08Table_tinv c) (by decide) (by decide)
+
+example (c : Cfg Nat) (now : Nat) :
+    let r := c08Table.nodesByDistances c now [4, 300, 1, 0] 1
+    r.2 = ((([4, 300, 1, 0] : List Nat).filter (fun d => 1 ≤ d ∧ d ≤ 256)).flatMap
+      (fun d => (r.1.bucket (d - 1)).nodes)).take 1 :=
+  (nodesByDistances_exact c now c08Table [4, 300, 1, 0] 1 (c08Table_tinv c) (by decide)
+    (by decide)).2.1
 
 end Discv5.KB
